@@ -141,7 +141,7 @@ class TlsConn:
         offered = sh.get("offered") or [0x00FF, s.code, 0x002F, 0x0035]
         ch = R.client_hello(ver, self.cr, csid, offered, **self._exts("c"))
         self._plain_hs("c", "CH", [ch], ver=sh.get("rec_ver_ch", R.TLS10 if ver >= R.TLS10 else R.SSL30))
-        shm = R.server_hello(ver, self.sr, ssid, s.code, hello_ver=sh.get("hello_ver"),
+        shm = R.server_hello(ver, self.sr, ssid, sh.get("sh_suite_override", s.code), hello_ver=sh.get("hello_ver"),
                              compression=sh.get("compression", 0), **self._exts("s"))
         if ver == R.TLS13:
             self._plain_hs("s", "SH", [shm])
